@@ -94,6 +94,7 @@ func plan(prop, tier string) []Part {
 		return []Part{
 			{Name: "mem", N: q(tier, 600, 12000), Chunk: 40, Procs: []int{2, 16, 4, 1}, Timeout: to},
 			{Name: "pty", N: q(tier, 300, 6000), Chunk: 30, Procs: []int{2, 16, 4}, Timeout: to},
+			{Name: "late", N: q(tier, 300, 6000), Chunk: 30, Procs: []int{2, 16, 4}, Timeout: to},
 		}
 	case "C17":
 		return []Part{
